@@ -169,8 +169,9 @@ TextLine(s, n, r, pm, L, started) ==
     THEN [AddLineTo(s, s.tip.node, LStrip(r), L) EXCEPT !.tags = s.tags \cup {"lazy"}
               \cup (IF \E k \in (n + 1)..Len(s.open) : s.open[k].kind = "quote" /\ s.open[k].ind4 THEN {"lazy-after-indented-quote-content"} ELSE {})
               \cup (IF IsSetextUnderline(r) /\ "item" \in UnmatchedKinds(s, n) THEN {"lazy-line-looks-like-setext-underline"} ELSE {})
-              \cup (IF LeadSp(r) >= 4 /\ StartsBlockWhenDeindented(LStrip(r)) THEN {"lazy-indented-line-looks-like-block-start"} ELSE {})]
-    ELSE IF pm THEN AddLineTo(s, s.tip.node, LStrip(r), L)
+              \cup (IF LeadSp(r) >= 4 /\ StartsBlockWhenDeindented(LStrip(r)) THEN {"lazy-indented-line-looks-like-block-start"} ELSE {})
+              \cup (IF LeadSp(r) >= 4 THEN {"continuation-line-indented-4"} ELSE {})]
+    ELSE IF pm THEN [AddLineTo(s, s.tip.node, LStrip(r), L) EXCEPT !.tags = s.tags \cup (IF LeadSp(r) >= 4 THEN {"continuation-line-indented-4"} ELSE {})]
     ELSE LET s0 == IF ~started /\ n < Len(s.open) /\ ~IsBlank(r) THEN [s EXCEPT !.tags = s.tags \cup {"lazy-after-nonpara"}] ELSE s      \* (tip is no paragraph)
              s1 == IF started THEN s0 ELSE CloseTo(s0, n) IN
          IF IsBlank(r) THEN s1
@@ -214,7 +215,7 @@ Starts(s, n, r, pm, L, started) ==
             tg == IF odd THEN (IF s.tip.k = "para" THEN {"unsettled-lazy-or-list"} ELSE {"lazy-after-nonpara"}) ELSE {}
             s2 == [AddNode(s1, Node("ListItem", TopNode(s1), L, 0, << >>, NoX)) EXCEPT
                      !.open = Append(s1.open, [kind |-> "item", node |-> iid, w |-> m.w, mtype |-> m.mtype, ind4 |-> FALSE]),
-                     !.tags = s1.tags \cup tg] IN
+                     !.tags = s1.tags \cup tg \cup (IF IsBlank(m.rest) THEN {"item-begins-with-blank-line"} ELSE {})] IN
         Starts(s2, Len(s2.open), m.rest, FALSE, L, TRUE)
     ELSE IF LeadSp(r) >= 4 /\ s.tip.k # "para" /\ ~IsBlank(r) THEN
         LET s1 == PopList(closed) id == NewId(s1) IN
